@@ -158,4 +158,4 @@ func crafted() []core.Case {
 }
 
 // CraftedCases exposes the hand-made cases (used to write corpus/C09).
-func CraftedCases() []core.Case { return crafted() }
+func CraftedCases() []core.Case { return append(crafted(), craftedSeq()...) }
